@@ -1,0 +1,17 @@
+//go:build verif
+
+package audit
+
+// Contracts checked by /verif/gocv (comment-only file; see /verif/DESIGN.md §3).
+
+// Every call that reaches the inner storage through the audit middleware is bracketed: a START entry is logged before
+// it and a COMPLETE entry, carrying the call's error, after it; the COMPLETE entry repeats the operation and resource
+// of a START entry logged before. The template is instantiated for the whole method set of the middleware, including
+// methods it only inherits from the embedded delegator: a storage method the middleware does not wrap fails.
+//@ methods m *AuditLogMiddleware of storage.Storage except Start Stop
+//@ mode effects
+//@ effect[C26:start-before-call] every m.Next.$M(__) needs before m.log(_, _, $phase, __) where $phase == auditlog.PhaseStart
+//@ effect[C26:complete-after-call] every m.Next.$M(__) -> (__, $err)
+//@     needs after m.log(_, _, $phase, _, $e, __) where $phase == auditlog.PhaseComplete && $e == $err
+//@ effect[C26:complete-matches-start] every m.log(_, $op, $phase, $res, __) if $phase == auditlog.PhaseComplete
+//@     needs before m.log(_, $op0, $phase0, $res0, __) where $phase0 == auditlog.PhaseStart && $op0 == $op && $res0.bucket == $res.bucket && $res0.key == $res.key
